@@ -429,7 +429,9 @@ def run_check(pid, cfg, tier, seed, rundir, t0, replay):
     bad = hygiene()
     if bad:
         raise Infra("forbidden vernacular in the development:\n" + "\n".join(bad))
-    clean = tier == "thorough" and not replay and os.environ.get("VERIF_NO_CLEAN") != "1"
+    # a from-scratch rebuild of the whole development is opt-in (VERIF_CLEAN=1): the thorough tier
+    # re-checks the property's compiled cone with the independent checker coqchk instead
+    clean = tier == "thorough" and not replay and os.environ.get("VERIF_CLEAN") == "1"
     rc, out = coq_build([corr_vo], clean=clean)
     if rc != 0:
         raise Infra("correspondence module does not build:\n" + out[-4000:])
